@@ -249,7 +249,7 @@ WBEM_URI_INSTANCEPATH_REGEXP = re.compile(
     r'(?:/|^/?)(\w+(?:/\w+)*)?'  # namespace name (leading slash optional)
     r'(?::|^:?)(\w+)'  # class name (leading colon optional)
     r'\.(.+)$',  # key bindings
-    flags=re.UNICODE)
+    flags=(re.UNICODE | re.DOTALL))  # DOTALL: string keys may contain newlines
 
 # For parsing the key bindings using a regexp, we just distinguish the
 # differently quoted forms. The exact types of the key values are determined
